@@ -2,6 +2,7 @@
 package c19
 
 import (
+	"archive/zip"
 	"bytes"
 	"crypto/sha256"
 	"encoding/base64"
@@ -412,6 +413,7 @@ func Run(r *fw.Run) {
 
 	// module archives
 	zipPart(r)
+	rawZipPart(r)
 
 	// overlapping calls: every interleaving of two Hash1 calls at their open/read callbacks
 	overlapPart(r)
@@ -830,6 +832,65 @@ func zipSpecs(thorough bool) []zipSpec {
 	return out
 }
 
+// rawZipPart: archives written with archive/zip directly (not by zip.Create): repeated entry names, directory
+// entries, unsorted entries, stored and deflated. HashZip is Hash1 over the entry names as listed, each
+// opened by name; with equal contents for equal names that is one summary line per entry.
+func rawZipPart(r *fw.Run) {
+	l := fw.NewLocal()
+	defer r.Merge(l)
+	scratch := r.Scratch()
+	type ent struct{ name, data string }
+	lists := [][]ent{
+		{{"a", "x"}, {"go.mod", "module m\n"}, {"a", "x"}},
+		{{"x", "1"}, {"x", "1"}},
+		{{"x", "1"}, {"x", "1"}, {"x", "1"}, {"y", "2"}},
+		{{"z/b", "2"}, {"a", "1"}, {"m", ""}},
+		{{"d/", ""}, {"d/f", "c"}},
+		{{"p@v1/a", "1"}, {"p@v1/A", "2"}, {"p@v1/a ", "3"}},
+		{{"only", strings.Repeat("0123456789", 7000)}},
+		{},
+	}
+	r.Bounds["raw_archives"] = len(lists) * 2
+	for li, es := range lists {
+		for _, method := range []uint16{zip.Store, zip.Deflate} {
+			var buf bytes.Buffer
+			zw := zip.NewWriter(&buf)
+			for _, e := range es {
+				w, err := zw.CreateHeader(&zip.FileHeader{Name: e.name, Method: method})
+				if err == nil {
+					w.Write([]byte(e.data))
+				}
+			}
+			zw.Close()
+			zp := filepath.Join(scratch, fmt.Sprintf("raw-%d-%d.zip", li, method))
+			os.WriteFile(zp, buf.Bytes(), 0o644)
+			got, err := dirhash.HashZip(zp, dirhash.Hash1)
+			os.Remove(zp)
+			l.States++
+			l.Execs++
+			l.Transitions++
+			// the documented summary, one line per listed entry
+			var lines []string
+			for _, e := range es {
+				sum := sha256.Sum256([]byte(e.data))
+				lines = append(lines, fmt.Sprintf("%x  %s\n", sum, e.name))
+			}
+			sort.Slice(lines, func(i, j int) bool { return lines[i][66:] < lines[j][66:] })
+			h := sha256.Sum256([]byte(strings.Join(lines, "")))
+			want := "h1:" + base64.StdEncoding.EncodeToString(h[:])
+			if err != nil || got != want {
+				var names []string
+				for _, e := range es {
+					names = append(names, e.name)
+				}
+				r.Violation(fmt.Sprintf("rawzip:%d:%d", li, method), fmt.Sprintf("HashZip of a raw archive with entries %q = %s, %v; one summary line per listed entry gives %s", names, got, err, want), caseT{Kind: "rawzip", Calls: names})
+			} else {
+				l.Nontrivial++
+			}
+		}
+	}
+}
+
 func zipPart(r *fw.Run) {
 	scratch := r.Scratch()
 	specs := zipSpecs(r.Thorough())
@@ -922,6 +983,10 @@ func Replay(r *fw.Run, raw json.RawMessage) {
 		if pan != nil || ra != sa || rb != sb {
 			r.Violation("overlap", fmt.Sprintf("overlapped: %q, %q (panic %v); alone: %q, %q", ra, rb, pan, sa, sb), c)
 		}
+		return
+	}
+	if c.Kind == "rawzip" {
+		rawZipPart(r)
 		return
 	}
 	if c.Kind == "dir" {
